@@ -5,9 +5,11 @@ import (
 	"bytes"
 	"encoding/hex"
 	"errors"
+	"flag"
 	"fmt"
 	"io"
 	"math/rand"
+	"os"
 	"runtime"
 	"strings"
 	"testing"
@@ -36,6 +38,18 @@ func decVersion(p *Packet, v Version) Version {
 		return p.Version()
 	}
 	return v
+}
+
+// The properties are cheap, so run more cases than rapid's default of 100
+// unless the caller chose a number.
+func TestMain(m *testing.M) {
+	flag.Parse()
+	set := false
+	flag.Visit(func(f *flag.Flag) { set = set || f.Name == "rapid.checks" })
+	if !set {
+		flag.Set("rapid.checks", "400")
+	}
+	os.Exit(m.Run())
 }
 
 // ---------------------------------------------------------------------------
@@ -454,7 +468,10 @@ func TestEncodeOpts(t *testing.T) {
 	if _, err := Encode(&Packet{Type: PINGREQ}, 6); err == nil {
 		t.Errorf("version 6 encodes")
 	}
-	// the largest packet that can be encoded
+	// the largest packet that can be encoded (uses about 800 MB: opt-in)
+	if os.Getenv("MQTTWIRE_BIG") == "" {
+		return
+	}
 	p := &Packet{Type: PUBLISH, Topic: "t", Payload: make([]byte, MaxVarInt-3)}
 	b, err := Encode(p, V311)
 	if err != nil || len(b) != 5+MaxVarInt {
